@@ -51,6 +51,8 @@ struct HarnessCfg {
 
 // Run one case under the configured isolation; updates counters. Returns the outcome.
 Outcome run_one (const std::vector<uint8_t> &bytes);
+// run f in a forked child (always), without touching counters: used by structure-level reducers
+Outcome run_isolated (const std::function<void (Outcome &)> &f);
 // for enumerate(): cases that do not come from a byte stream go through this with a closure
 Outcome run_closure (const std::function<void (Outcome &)> &f);
 
